@@ -67,8 +67,9 @@ func (w *World) installSlashHooks() {
 			w.injectHostileSlash(l, false)
 		}
 		// every hostile world sends at least one report with an update id the provider never issued (answered with an error
-		// acknowledgement that carries the packet); late, because the consumer closes its channel end when it sees that answer
-		if w.Cfg.Hostile && !neverIssuedSent && w.Step >= w.Cfg.Steps*3/4 {
+		// acknowledgement that carries the packet); in the second half, because the consumer closes its channel end when it sees that
+		// answer; it jumps the queue (right behind the head, which may be in flight) so that it is delivered before the world ends
+		if w.Cfg.Hostile && !neverIssuedSent && w.Step >= w.Cfg.Steps/2 {
 			neverIssuedSent = true
 			w.injectHostileSlash(l, true)
 		}
@@ -216,7 +217,24 @@ func (w *World) injectHostileSlash(l *Link, forceNeverIssued bool) {
 	if l.C.Rec != nil {
 		l.C.Rec.Tainted = true
 	}
-	l.C.CApp.ConsumerKeeper.AppendPendingPacket(l.C.WriteCtx(), ccv.SlashPacket, &ccv.ConsumerPacketData_SlashPacketData{SlashPacketData: data})
+	if ck, wctx := l.C.CApp.ConsumerKeeper, l.C.WriteCtx(); forceNeverIssued {
+		all := ck.GetAllPendingPacketsWithIdx(wctx)
+		if len(all) > 1 {
+			var idxs []uint64
+			for _, p := range all[1:] {
+				idxs = append(idxs, p.Idx)
+			}
+			ck.DeletePendingDataPackets(wctx, idxs...)
+		}
+		ck.AppendPendingPacket(wctx, ccv.SlashPacket, &ccv.ConsumerPacketData_SlashPacketData{SlashPacketData: data})
+		if len(all) > 1 {
+			for _, p := range all[1:] {
+				ck.AppendPendingPacket(wctx, p.Type, p.Data)
+			}
+		}
+	} else {
+		ck.AppendPendingPacket(wctx, ccv.SlashPacket, &ccv.ConsumerPacketData_SlashPacketData{SlashPacketData: data})
+	}
 	if w.hostileQueued == nil {
 		w.hostileQueued = map[string]int{}
 	}
